@@ -1742,6 +1742,8 @@ pub fn run<S: Suite>(t: &mut Tape, cfg: &Cfg, out: &mut RunOut) {
     let mut rng = SimRng::new(t.seed64());
     if cfg.many && t.chance(1, if cfg.tier == Tier::Thorough { 6 } else { 12 }) {
         let k = if cfg.tier == Tier::Thorough { [200usize, 256, 257, 300, 400][t.usize(5)] } else { 70 + t.usize(70) };
+        // (Ed448 costs about three times as much per group operation)
+        let k = if S::NAME == "ed448" { k.min(257) } else { k };
         let derive = k <= 260 && S::NAME != "ed448";
         out.summary = format!("big-threshold direct session, t = n = {}", k);
         big_threshold_session::<S>(t, &mut rng, out, k, derive);
